@@ -191,6 +191,12 @@ theorem cellInfo_ext {t t' : Tabs} (h : Ext t t') {st : SM.St} (ha : AllocOK t s
   rw [h1]
   rcases getElem?_ext (l := t.ctab) (l' := l) c with he | ⟨hn, he⟩
   · rw [he]
+    cases hc : t.ctab[c]? with
+    | none => rfl
+    | some e =>
+      obtain ⟨q, x⟩ := e
+      simp only
+      rw [h.cid q x (List.mem_of_getElem? hc)]
   · rw [hn]
     cases hc : (t.ctab ++ l)[c]? with
     | none => rfl
@@ -240,24 +246,6 @@ theorem envOf_ext_alive (P : Params) {t t' : Tabs} (h : Ext t t') {st : SM.St} (
     (envOf P t' st).alive = (envOf P t st).alive := by
   funext c
   simp only [envOf, cellInfo_ext h ha]
-  cases hi : cellInfo t st c with
-  | none => rfl
-  | some i =>
-    obtain ⟨q, x, m⟩ := i
-    simp only
-    have hm : (st.mem .cells q x).isSome = true := by
-      unfold cellInfo at hi
-      cases hc : t.cellOf c with
-      | none => rw [hc] at hi; cases hi
-      | some e =>
-        obtain ⟨q', x'⟩ := e
-        rw [hc] at hi
-        simp only [Option.map_eq_some_iff] at hi
-        obtain ⟨m', hm', heq⟩ := hi
-        simp only [Prod.mk.injEq] at heq
-        obtain ⟨rfl, rfl, _⟩ := heq
-        rw [hm']; rfl
-    rw [h.cid q x (ha.cells q x hm)]
 
 theorem envOf_ext_refs (P : Params) {t t' : Tabs} (h : Ext t t') {st : SM.St} (ha : AllocOK t st) :
     (envOf P t' st).refs = (envOf P t st).refs := by
